@@ -11,7 +11,8 @@
    sub_ty                   = the order bool < int < float, String alone *)
 From Coq Require Import ZArith QArith List Bool.
 From RV Require Import Base.Wire Base.Text Lang.PyAst Lang.PySem Lang.Infer Lang.InferGuard Lang.InferSpec
-  Lang.InferComp Lang.Decl Lang.DeclSpec Lang.FnSpec Lang.AliasSpec Proofs.InferP Proofs.JoinP Proofs.DeclP Proofs.FnP Proofs.CompP.
+  Lang.InferComp Lang.Decl Lang.DeclSpec Lang.FnSpec Lang.AliasSpec Lang.StmtRef Lang.CtlSpec Lang.CallFree
+  Proofs.InferP Proofs.JoinP Proofs.DeclP Proofs.FnP Proofs.CompP Proofs.CtlP Proofs.DynP.
 Import ListNotations.
 Open Scope Z_scope.
 
@@ -216,7 +217,10 @@ Print Assumptions C02_branch_hoist_refuted.
 
 (* ---------------------------------------------------------------- function results, values
    ret_body rets          = a function body  [if c: return e | return e]*  (Lang/FnSpec.v)
-   parse_function_core    = _parse_function for one call signature (Lang/Decl.v)
+   parse_function_core    = _parse_function for one call signature (Lang/Decl.v): the body is typed with the on-demand machinery
+                            (a call of another helper under a new signature parses that variant in the middle of the body)
+   ucf_block body         = the body calls no user function (Lang/CallFree.v): the reference expression semantics has no
+                            user-function calls, so the value theorems are stated for such bodies
    fn_tenv cur params sg  = var_types inside that variant; fn_table = the functions table the body is typed with
    ret_guard              = every return expression is inside [guard] and has a scalar label *)
 
@@ -234,12 +238,13 @@ Print Assumptions C02_result_covers_every_return_partial.
    whose names hold values of their labels, the declared C return type holds the value of every return expression *)
 Theorem C02_function_result_covers_partial :
   forall C fe cur name params rets sg fe1 p1 final d rho,
+    ucf_block (ret_body rets) = true -> fe_err fe = false ->
     parse_function_core C fe cur name (mk_fsrc params None (ret_body rets)) (Some sg) = Some (fe1, p1, final) ->
     ret_guard (fn_table fe name) (fe_alias fe) C (fn_tenv cur params sg) rets = true ->
     env_sound (fn_tenv cur params sg) rho ->
     sig_lookup final (get_or [] (tlookup name (fe_defs fe1))) = Some d ->
     forall g e v, In (g, e) rets -> peval rho e = Ok v -> crepr (fd_ret d) v.
-Proof. exact function_result_covers. Qed.
+Proof. exact function_result_covers_dyn. Qed.
 Print Assumptions C02_function_result_covers_partial.
 
 (* def debounce(count, limit): if count < 0: return False ; if count >= limit: return True ; return count + 1
@@ -248,12 +253,13 @@ Example C02_function_result_nonvacuous :
   exists fe1 p1 d,
     parse_function_core None fenv0 empty_ctx z_f (mk_fsrc debounce_params None (ret_body debounce_rets)) (Some [TInt; TInt])
       = Some (fe1, p1, [TInt; TInt]) /\
+    ucf_block (ret_body debounce_rets) = true /\
     ret_guard (fn_table fenv0 z_f) (fe_alias fenv0) None (fn_tenv empty_ctx debounce_params [TInt; TInt]) debounce_rets = true /\
     env_sound (fn_tenv empty_ctx debounce_params [TInt; TInt]) debounce_rho /\
     sig_lookup [TInt; TInt] (get_or [] (tlookup z_f (fe_defs fe1))) = Some d /\ fd_ret d = CInt /\
     peval debounce_rho (EBin Add (EName z_count) (EInt 1)) = Ok (VInt 4) /\
     peval debounce_rho (EBool true) = Ok (VBool true).
-Proof. exact debounce_nonvacuous. Qed.
+Proof. exact debounce_nonvacuous_dyn. Qed.
 Print Assumptions C02_function_result_nonvacuous.
 
 (* a parameter is declared from the label var_types holds for it at the END of the body:
@@ -369,13 +375,14 @@ Print Assumptions C02_shadowing_target_keeps_label.
    signature whose canonical form has no definition). *)
 Theorem C02_call_site_typed_from_its_variant_partial :
   forall C fe cur name src sg fe1 p1 final,
+    ucf_block (fs_body src) = true -> fe_err fe = false ->
     sig_lookup sg (get_or [] (tlookup name (fe_alias fe))) = None ->
     parse_function_core C fe cur name src (Some sg) = Some (fe1, p1, final) ->
     resolve_alias (fe_alias fe1) name sg = final /\
     exists d t, sig_lookup final (get_or [] (tlookup name (fe_defs fe1))) = Some d /\
                 resolve_call (fe_F fe1) (fe_alias fe1) name sg = Some t /\
                 fd_ret d = cpp_type t.
-Proof. exact call_site_typed_from_its_variant. Qed.
+Proof. exact call_site_typed_from_its_variant_dyn. Qed.
 Print Assumptions C02_call_site_typed_from_its_variant_partial.
 
 (* def blend(a, b): a = a + b ; return a   after blend(x, y) on floats: the (float, float) variant exists, and
@@ -383,11 +390,12 @@ Print Assumptions C02_call_site_typed_from_its_variant_partial.
 Example C02_call_site_nonvacuous :
   exists ps fe1 p1,
     blend_after_final_first = Some ps /\
+    ucf_block (fs_body blend_src) = true /\ fe_err (p_fe ps) = false /\
     sig_lookup [TFloat; TFloat] (get_or [] (tlookup z_blend (fe_defs (p_fe ps)))) <> None /\
     sig_lookup [TInt; TFloat] (get_or [] (tlookup z_blend (fe_alias (p_fe ps)))) = None /\
     parse_function_core None (p_fe ps) (p_ctx ps) z_blend blend_src (Some [TInt; TFloat]) = Some (fe1, p1, [TFloat; TFloat]) /\
     resolve_call (fe_F fe1) (fe_alias fe1) z_blend [TInt; TFloat] = Some TFloat.
-Proof. exact call_site_nonvacuous. Qed.
+Proof. exact call_site_nonvacuous_dyn. Qed.
 Print Assumptions C02_call_site_nonvacuous.
 
 (* refuted: requested signatures that end on the same final signature share ONE stored definition - the one parsed
@@ -411,3 +419,227 @@ Example C02_single_call_variant :
     selected_functions (p_fe ps) = [(z_blend, d)] /\ tlookup z_w (fd_locals d) = Some CFloat.
 Proof. exact single_call_variant. Qed.
 Print Assumptions C02_single_call_variant.
+
+(* ---------------------------------------------------------------- control flow: every path, every scope
+   exec_stmt / exec_block / exec_prog orc ...  = the reference (CPython) execution of the statement syntax of Lang/Decl.v
+                            along the path the ORACLE orc picks (branch taken by every if, passes of every while, n of every
+                            range(n)); it returns the trace of stores: TAssign x v (a value bound to x), TLoopVar i v (a value
+                            of a for target, which lives in the `int i` of the for header), TReturn v (Lang/StmtRef.v)
+   script_items pre main  = the script  <statements at column 0, with their nested blocks> ; while True: <main>
+   script_guard C pre main = with L the table of DECLARED labels (for every name the label of the store - or hoist - that declares
+                            it; Lang/StmtRef.v decl_tab): every store x = e (x op= e, x = [comprehension], each target of a tuple
+                            assignment) has e inside the expression guard under the var_types G the transpiler holds at that line;
+                            its value is covered - every name e reads has in G exactly its declared label (reads_ok: not narrowed,
+                            not read before the line that types it), or typing e under L gives the same label; the label
+                            inferred for e is L(x) when the store declares x and AT MOST L(x) (bool < int < float) when x is
+                            declared already (a narrower value into a wider variable); x op= e has x declared; a name hoisted out
+                            of an if or a loop ends its block with its declared label (hoist_ok, promo_ok) and has no other C type
+                            in the shared promotion table; every declared label belongs to a name var_types finally knows
+   ev_decl D e            = the store e is held by the C type D declares for its name *)
+
+(* scripts with if / elif / else, while, for at any depth, then any number of passes of the main loop: on EVERY path, every value
+   ever stored into a name is held by the C type the sketch declares for it (a global, or a local of loop()) *)
+Theorem C02_decl_covers_script_partial :
+  forall C pre main ps orc orc1 rho tr ret,
+    script_guard C pre main = true ->
+    run_items C (script_items pre main) = Some ps ->
+    exec_prog orc pre main = Ok (orc1, rho, tr, ret) ->
+    Forall (ev_decl (p_loop ps ++ p_globals ps)) tr.
+Proof. exact script_covers. Qed.
+Print Assumptions C02_decl_covers_script_partial.
+
+(* a = 3 ; if ..: x = a * 2.5 else: x = 0.5 ; k = 0 ; while ..: y = x + k ; k = k + 1 ; for i in range(..): z = i * 2
+   while True: r = a + 1 ; if ..: w = r * 0.5 *)
+Example C02_decl_covers_script_nonvacuous :
+  script_guard None demo_pre demo_main = true /\
+  (exists ps, run_items None (script_items demo_pre demo_main) = Some ps /\
+              p_globals ps = [(w_a, CInt); (w_x, CFloat); (w_k, CInt); (w_y, CFloat); (w_z, CInt)] /\
+              p_loop ps = [(w_r, CInt); (w_w, CFloat)]) /\
+  (exists rho tr, exec_prog demo_oracle demo_pre demo_main = Ok ([], rho, tr, false) /\
+                  In (TAssign w_y (VFloat (17 # 2))) tr /\ In (TAssign w_w (VFloat 2)) tr /\ In (TLoopVar w_i (VInt 1)) tr).
+Proof. exact demo_script_nonvacuous. Qed.
+Print Assumptions C02_decl_covers_script_nonvacuous.
+
+(* the boundary: the guard excludes the refuted shapes - a later store of a wider label, x op= e widening the label,
+   branches that disagree, a name read while its label is below its declared one (flow-insensitive table), a name read
+   before the line that types it *)
+Example C02_script_guard_excludes_refuted_witnesses :
+  forallb (fun p => negb (script_guard None p BNil))
+          [first_assign_script; aug_script; branch_script; flow_script; early_read_script] = true.
+Proof. exact script_guard_boundary. Qed.
+Print Assumptions C02_script_guard_excludes_refuted_witnesses.
+
+(* refuted: a name that is READ, in text order, before the line that types it is labelled int at that read:
+   k = 0 ; while k < 2: (if k > 0: b = z) ; z = 2.5 ; k = k + 1   declares int b; on the second pass Python stores 2.5 *)
+Theorem C02_read_before_typed_refuted :
+  exists ps rho tr,
+    run_items None (script_items early_read_script BNil) = Some ps /\
+    exec_prog early_read_oracle early_read_script BNil = Ok ([], rho, tr, false) /\
+    In (TAssign w_b (VFloat (5 # 2))) tr /\
+    tlookup w_b (p_loop ps ++ p_globals ps) = Some CInt /\
+    ~ crepr CInt (VFloat (5 # 2)) /\ c_store CInt (VFloat (5 # 2)) = Some (VInt 2).
+Proof. exact read_before_typed. Qed.
+Print Assumptions C02_read_before_typed_refuted.
+
+(* the two halves of the proof, for every instance of the user-function step (S, call) that answers like a fixed function table:
+   (M) the declaration bookkeeping keeps a block state well formed with respect to the declared labels L - every label in
+       var_types is at most the declared one, labelled = declared, every labelled name is declared with the C type of its
+       DECLARED label, nothing is declared twice;
+   (S) on every path every stored value is held by the label L gives the name *)
+Theorem C02_hoisting_keeps_declarations_coherent_partial :
+  forall (S : Type) call C F A (Inv : S -> Prop),
+    (forall d sp G f sg, Inv (fst sp) ->
+       Inv (fst (fst (call d sp G f sg))) /\ snd (call d sp G f sg) = resolve_call F A f sg) ->
+    forall x L outer base s st s1 st1,
+      Inv s -> wf L outer base st -> gd_stmt S call C F A L s st x = true ->
+      run_stmt S call C s st x = Some (s1, st1) ->
+      Inv s1 /\ wf L outer base st1.
+Proof. exact hoisting_keeps_declarations_coherent. Qed.
+Print Assumptions C02_hoisting_keeps_declarations_coherent_partial.
+
+Theorem C02_stored_values_within_declared_labels_partial :
+  forall (S : Type) call C F A (Inv : S -> Prop),
+    (forall d sp G f sg, Inv (fst sp) ->
+       Inv (fst (fst (call d sp G f sg))) /\ snd (call d sp G f sg) = resolve_call F A f sg) ->
+    forall x L outer base s st s1 st1 orc rho orc1 rho1 tr ret,
+      Inv s -> wf L outer base st -> gd_stmt S call C F A L s st x = true ->
+      run_stmt S call C s st x = Some (s1, st1) ->
+      env_lab L rho -> exec_stmt orc rho x = Ok (orc1, rho1, tr, ret) ->
+      env_lab L rho1 /\ Forall (ev_ok L (a_rets (st_acc st1))) tr.
+Proof. exact stored_values_within_declared_labels. Qed.
+Print Assumptions C02_stored_values_within_declared_labels_partial.
+
+(* ---------------------------------------------------------------- function bodies, every shape
+   fn_guard F A C cur params sg body = the same guard for the body parsed for call signature sg (declared labels: the labels
+                            visible when the body starts, then the first label recorded for every new name), plus: every
+                            parameter ends the body with the label of the signature (it is declared from that final label)
+   fn_ev d outer e        = the store e is held by what the emitted variant d declares: a local (fd_locals), a parameter / global
+                            (typed from the label it has when the body starts), the declared return type for a returned value *)
+Theorem C02_function_body_covers_partial :
+  forall C fe cur name params body sg fe1 p1 final d orc rho orc1 rho1 tr ret,
+    ucf_block body = true -> fe_err fe = false ->
+    parse_function_core C fe cur name (mk_fsrc params None body) (Some sg) = Some (fe1, p1, final) ->
+    fn_guard (fn_table fe name) (fe_alias fe) C cur params sg body = true ->
+    env_lab (d_types (fn_ctx cur params sg)) rho ->
+    sig_lookup final (get_or [] (tlookup name (fe_defs fe1))) = Some d ->
+    exec_block orc rho body = Ok (orc1, rho1, tr, ret) ->
+    Forall (fn_ev d (lab_decls (d_types (fn_ctx cur params sg)))) tr /\
+    (forall p c, In (p, c) (fd_params d) -> c = cpp_type (tget (d_types (fn_ctx cur params sg)) p)).
+Proof. exact function_body_covers_dyn. Qed.
+Print Assumptions C02_function_body_covers_partial.
+
+(* def f(p, q): w = p * 2 ; if ..: return w ; for i in range(..): (if ..: return q + 0.5) ; w = w + i ; return w
+   called as f(3, 0.5): float f(int p, float q) with int w; the path through the inner return yields 1.0 *)
+Example C02_function_body_nonvacuous :
+  exists fe1 d rho1 tr,
+    parse_function_core None fenv0 fresh_cur w_x (mk_fsrc fparams None fbody) (Some fsig) = Some (fe1, None, fsig) /\
+    ucf_block fbody = true /\
+    fn_guard (fn_table fenv0 w_x) (fe_alias fenv0) None fresh_cur fparams fsig fbody = true /\
+    env_lab (d_types (fn_ctx fresh_cur fparams fsig)) frho /\
+    sig_lookup fsig (get_or [] (tlookup w_x (fe_defs fe1))) = Some d /\
+    fd_ret d = CFloat /\ fd_locals d = [(w_w, CInt)] /\ fd_params d = [(w_p, CInt); (w_q, CFloat)] /\
+    exec_block foracle frho fbody = Ok ([], rho1, tr, true) /\
+    In (TReturn (VFloat 1)) tr /\ In (TAssign w_w (VInt 6)) tr.
+Proof. exact demo_function_nonvacuous_dyn. Qed.
+Print Assumptions C02_function_body_nonvacuous.
+
+(* the boundary: the body of g of C02_loop_hoist_stale_table_refuted is outside the guard exactly when the shared promotion
+   table holds another C type for its loop-hoisted local; a body that re-labels its parameter is outside *)
+Example C02_fn_guard_boundary :
+  fn_guard [(w_x, FVariants [])] [] None stale_cur [(w_p, None)] [TInt] gbody = false /\
+  fn_guard [(w_x, FVariants [])] [] None fresh_cur [(w_p, None)] [TInt] gbody = true /\
+  fn_guard [(w_x, FVariants [])] [] None fresh_cur [(w_p, None)] [TFloat] relabel_body = false.
+Proof. exact fn_guard_boundary. Qed.
+Print Assumptions C02_fn_guard_boundary.
+
+(* ---------------------------------------------------------------- tuple assignment
+   STuple xs es = x1, x2, ... = e1, e2, ...  (Lang/Decl.v do_tuple: at column 0 with every target new the names become globals
+   directly; otherwise every value goes through a temporary `__tmp_assign_k`, recorded under [tmp_marker] in the label list).
+   It is one more statement of the covering theorems above; its temporaries are typed like their targets: *)
+Theorem C02_tuple_temporaries_typed_partial :
+  forall (S : Type) call C F A (Inv : S -> Prop),
+    (forall d sp G f sg, Inv (fst sp) ->
+       Inv (fst (fst (call d sp G f sg))) /\ snd (call d sp G f sg) = resolve_call F A f sg) ->
+    forall L s st xs es s1 st1,
+      Inv s -> gd_stmt S call C F A L s st (STuple xs es) = true ->
+      run_stmt S call C s st (STuple xs es) = Some (s1, st1) ->
+      exists ts, a_labels (st_acc st1) = a_labels (st_acc st) ++ map (fun t => (tmp_marker, t)) ts ++ combine xs ts /\
+                 Forall2 (fun x t => tlookup x L = Some t) xs ts.
+Proof. exact tuple_temporaries_typed. Qed.
+Print Assumptions C02_tuple_temporaries_typed_partial.
+
+(* a, b = 1, 2.5 ; a, x = a + 1, b * 2 ; while ..: b, x = x, b *)
+Example C02_tuple_nonvacuous :
+  script_guard None demo_tuple_pre BNil = true /\
+  (exists ps, run_items None (script_items demo_tuple_pre BNil) = Some ps /\
+              p_globals ps = [(w_a, CInt); (w_b, CFloat); (w_x, CFloat)] /\
+              map snd (filter (fun xt => text_eqb (fst xt) tmp_marker) (p_labels ps)) = [TInt; TFloat; TFloat; TFloat]) /\
+  (exists rho tr, exec_prog [1]%nat demo_tuple_pre BNil = Ok ([], rho, tr, false) /\ In (TAssign w_b (VFloat 5)) tr).
+Proof. exact demo_tuple_nonvacuous. Qed.
+Print Assumptions C02_tuple_nonvacuous.
+
+(* ---------------------------------------------------------------- helpers calling helpers
+   The body of a function is typed by the same machinery as the top level (Lang/Decl.v parse_function_step): a call f(..) under
+   a signature f has no variant for makes _ensure_function_variant parse that variant on the spot, in the middle of the caller's
+   body; recursion is cut by _refreshing_functions (and, in the model, by fuel). *)
+
+(* for a body that calls no user function the on-demand machinery is never entered: _parse_function is the static typing the
+   function theorems above were first proved for - whatever is plugged in for the nested parses *)
+Theorem C02_call_free_body_parses_statically :
+  forall C pf fe cur name src forced,
+    ucf_block (fs_body src) = true -> fe_err fe = false ->
+    parse_function_step C pf fe cur name src forced = parse_function_static C fe cur name src forced.
+Proof. exact parse_dynamic_is_static. Qed.
+Print Assumptions C02_call_free_body_parses_statically.
+
+(* the user-function step at ANY call site (column 0, a nested block, the body of another helper): a signature the callee has
+   neither a variant nor an alias for is parsed on the spot, and the call expression is labelled with the return type of the
+   definition that parse stores (callee bodies that call no user function) *)
+Theorem C02_nested_call_typed_from_parsed_variant_partial :
+  forall C k declared fe p G f sg src,
+    tlookup f (fe_src fe) = Some src -> ucf_block (fs_body src) = true -> fe_err fe = false ->
+    sig_lookup sg (get_or [] (tlookup f (fe_alias fe))) = None ->
+    sig_lookup sg (get_or [] (tlookup f (fe_defs fe))) = None ->
+    refreshing fe f sg = false ->
+    forall fe2 p2 r,
+      call_dyn_with (parse_function_fuel C (Datatypes.S k)) declared (fe, p) G f sg = ((fe2, p2), r) ->
+      fe_err fe2 = false ->
+      exists d t final, r = Some t /\ resolve_alias (fe_alias fe2) f sg = final /\
+                        sig_lookup final (get_or [] (tlookup f (fe_defs fe2))) = Some d /\ fd_ret d = cpp_type t.
+Proof. exact nested_call_typed_from_parsed_variant. Qed.
+Print Assumptions C02_nested_call_typed_from_parsed_variant_partial.
+
+(* def ident(p): return p ; def twice(p): return ident(p) + ident(p) ; x = 2.5 ; a = twice(x) ; b = twice(3) *)
+Example C02_helper_calls_helper :
+  exists ps,
+    run_items None hh_prog = Some ps /\
+    p_globals ps = [(w_x, CFloat); (w_a, CFloat); (w_b, CInt)] /\
+    map (fun nd => (fst nd, fd_params (snd nd), fd_ret (snd nd))) (selected_functions (p_fe ps)) =
+      [(n_ident, [(w_p, CInt)], CInt); (n_ident, [(w_p, CFloat)], CFloat);
+       (n_twice, [(w_p, CFloat)], CFloat); (n_twice, [(w_p, CInt)], CInt)] /\
+    tlookup n_ident (fe_calls (p_fe ps)) = Some [[TInt]; [TFloat]].
+Proof. exact helper_calls_helper. Qed.
+Print Assumptions C02_helper_calls_helper.
+
+(* ---------------------------------------------------------------- narrower into wider
+   The guards above admit a store of a NARROWER label into a variable declared from a wider one (a = 2.5 ; a = 1) - the case the
+   declaration bookkeeping really handles: the declared C type holds the value (the covering theorems), and the C++ conversion
+   of such a store is exact (below).  What is not sound is the label table afterwards: the name must not be read while its label
+   is below its declared one (C02_script_guard_excludes_refuted_witnesses: flow_script). *)
+(* a = 2.5 ; a = 1 ; a = 3.5 ; b = 3 ; if ..: a = b ; a = 0.5 ; x = a * 2   is inside the guard (a is declared float and receives
+   ints at column 0 and inside a branch);  a = 2.5 ; a = 1 ; x = a  (a read while labelled int) is not *)
+Example C02_narrower_into_wider_nonvacuous :
+  script_guard None narrow_pre BNil = true /\ script_guard None narrow_read_pre BNil = false /\
+  (exists ps, run_items None (script_items narrow_pre BNil) = Some ps /\
+              p_globals ps = [(w_a, CFloat); (w_b, CInt); (w_x, CFloat)]) /\
+  (exists rho tr, exec_prog [0; 0]%nat narrow_pre BNil = Ok ([], rho, tr, false) /\
+                  In (TAssign w_a (VInt 1)) tr /\ In (TAssign w_a (VInt 3)) tr /\ In (TAssign w_x (VFloat 1)) tr).
+Proof. exact narrowing_nonvacuous. Qed.
+Print Assumptions C02_narrower_into_wider_nonvacuous.
+
+Theorem C02_narrower_store_is_exact :
+  forall u t v,
+    scalar t = true -> sub_ty u t -> repr u v ->
+    exists w, c_store (cpp_type t) v = Some w /\ crepr (cpp_type t) w /\ same_num v w.
+Proof. exact narrower_store_exact. Qed.
+Print Assumptions C02_narrower_store_is_exact.
